@@ -12,13 +12,26 @@ if "__init__" in r["obligation"]:
                and (obs["n_batches"] == 1 or D * (obs["n_batches"] - 1) * obs["batch_size"] < n))
     out = ({"n_states": n, "max_batch_size": M, "pmap_device_count": D}, obs, bad)
 else:
-    D, B, bs, n = (max(1, m.get(k, 1)) for k in ("D", "B", "bs", "N")); pad = D * B * bs - n
-    if pad >= 0:
-        bp = BatchProcessor.__new__(BatchProcessor); bp.n_devices, bp.n_batches, bp.batch_size, bp.n_states, bp.n_pad, bp.state_dim = D, B, bs, n, pad, 2
-        st = np.arange(n * 2).reshape(n, 2) + 1; b = np.asarray(bp.prepare_batches(jnp.asarray(st))).reshape(-1, 2)
-        res = np.arange(D * B * bs * 3).reshape(D, B, bs, 3); u = np.asarray(bp.unbatch_results(jnp.asarray(res)))
-        bad = not ((b[:n] == st).all() and (b[n:] == 0).all() and u.shape == (n, 3) and (u == res.reshape(-1, 3)[:n]).all())
-        out = ({"D": D, "B": B, "bs": bs, "n_states": n, "n_pad": pad}, {"unbatched_shape": list(u.shape)}, bad)
+    # layout / round-trip obligations: the counter-model fixes (devices, batches, batch size, states); any processor BUILT BY THE REAL CONSTRUCTOR that
+    # breaks the clause is a failing input, so the model's geometry and its neighbours are tried through __init__ (no hand-set attributes)
+    D, B, bs, n = (max(1, int(m.get(k, 1) or 1)) for k in ("D", "B", "bs", "N"))
+    cands = []
+    for nn in (n, max(1, n - 1), n + 1):
+        for M in (bs, max(1, bs - 1), bs + 1, 1, 64):
+            for DD in (D, 1, 2, 3):
+                if (nn, M, DD) not in cands: cands.append((nn, M, DD))
+    for (nn, M, DD) in cands[:40]:
+        try:
+            bp = BatchProcessor(nn, 2, max_batch_size=M, pmap_device_count=DD)
+            st = np.arange(nn * 2).reshape(nn, 2) + 1; b = np.asarray(bp.prepare_batches(jnp.asarray(st)))
+            shape_ok = b.shape == (bp.n_devices, bp.n_batches, bp.batch_size, 2); flat = b.reshape(-1, 2)
+            res = np.arange(int(np.prod(b.shape[:3])) * 3).reshape(*b.shape[:3], 3); u = np.asarray(bp.unbatch_results(jnp.asarray(res)))
+            bad = not (shape_ok and len(flat) == nn + bp.n_pad and (flat[:nn] == st).all() and (flat[nn:] == 0).all() and u.shape == (nn, 3) and (u == res.reshape(-1, 3)[:nn]).all())
+            obs = {"batched_shape": list(b.shape), "n_pad": int(bp.n_pad), "unbatched_shape": list(u.shape), "slot_order_ok": bool(len(flat) >= nn and (flat[:nn] == st).all()), "rows_ok": bool(u.shape == (nn, 3) and (u == res.reshape(-1, 3)[:nn]).all())}
+        except Exception as ex:
+            bad = True; obs = {"raised": f"{type(ex).__name__}: {str(ex)[:200]}"}
+        out = ({"n_states": nn, "max_batch_size": M, "pmap_device_count": DD}, obs, bad)
+        if bad: break
 if out:
     r["concrete_input"], r["observed"], bad = out; r["expected"] = "BatchProcessor contract (DESIGN C18)"
     r["verdict"] = "confirmed-on-real-code" if bad else "no-failing-input-found"
